@@ -5,6 +5,10 @@
 EXTENDS Transform, Json
 
 CONSTANT Full          \* TRUE: full product targets x translations x tokens x undo modes (thorough tier)
+(* deviation constants: behaviour of the code as shipped when this check was built (documented findings).    *)
+(* With all of them FALSE the implementation-shaped motion below IS the contract motion.                    *)
+CONSTANTS DEV_SmallAngleLinearised,   \* translation_rotation_matrix uses cos = 1, sin = a for |a| <= 0.05
+          DEV_EnvironmentNotMoved     \* EnvironmentObstacle has no translate_rotate
 
 VARIABLES tgt, t, rot, mix, undo
 vars == <<tgt, t, rot, mix, undo>>
@@ -67,6 +71,17 @@ LawUnion ==
               /\ \A k \in K : InScope(k, W[i]) => TR(W, tgt, t, rot)[i] = TR(W, k, t, rot)[i]
 (* the identity motion fixes everything; a non-trivial rotation fixes no direction                           *)
 LawIdentity == (rot[1] = rot[3] /\ t = <<0, 0>>) => \A c \in ScopeComps : Moved(c, t, rot) = Unmoved(c, rot)
+
+(* ---- implementation-shaped motion with the deviations switched on ---- *)
+ImplImage(r, tt, p) ==
+    LET cc == IF DEV_SmallAngleLinearised /\ AngleClass(r) = "small<=0.05" THEN r[3] ELSE r[1]     \* cos a := 1
+    IN <<cc * (p[1] + tt[1]) - r[2] * (p[2] + tt[2]), r[2] * (p[1] + tt[1]) + cc * (p[2] + tt[2])>>
+ImplMoved(c) == IF DEV_EnvironmentNotMoved /\ c.kind = "env_shape" THEN Unmoved(c, rot)
+                ELSE [pts |-> [i \in DOMAIN c.pts |-> ImplImage(rot, t, c.pts[i])],
+                      oris |-> [i \in DOMAIN c.oris |-> AngleSum(c.oris[i], rot)]]
+LawImplConforms == \A c \in ScopeComps : ImplMoved(c) = Moved(c, t, rot)
+LawImplRigid == \A p \in ScopePts : \A q \in ScopePts :
+                    Safe(rot, p, q) => Dist2(ImplImage(rot, t, p), ImplImage(rot, t, q)) = rot[3] * rot[3] * Dist2(p, q)
 
 (* ---- generation ---- *)
 Emit == PrintT(<<"CASE", ToJson([tgt |-> tgt, t |-> t, rot |-> rot, mix |-> mix, undo |-> undo,
